@@ -200,6 +200,8 @@ func (db *LeveldbPermanent) State(key string) (st base.State, found bool, _ erro
 		return nil, false, err
 	}
 
+	verifPermGate("state-cache-miss", key)
+
 	switch b, found, err := pst.Get(leveldbStateKey(key)); {
 	case err != nil, !found:
 		return nil, found, err
@@ -208,6 +210,7 @@ func (db *LeveldbPermanent) State(key string) (st base.State, found bool, _ erro
 			return nil, true, err
 		}
 
+		verifPermGate("state-loaded", key)
 		db.setStateToCache(st)
 
 		return st, true, nil
